@@ -30,7 +30,7 @@ fn check_conv(text: &str, acc: &mut Acc) {
             continue;
         }
         let exp = ref_line(text, off);
-        let got = match guarded(|| utils::get_line_number(off, text)) {
+        let got = match guarded(|| utils::get_line_number(off, text) as i32) {
             Ok(v) => v,
             Err((m, l)) => {
                 acc.violation("conv:panic", json!({"text": text, "offset": off, "panic": m, "at": l}));
@@ -176,7 +176,7 @@ pub fn run(ctx: &Ctx) -> i32 {
         for _ in 0..offs.len().min(12) {
             let off = *rng.pick(&offs);
             let exp = ref_line(&t, off);
-            let got = utils::get_line_number(off, &t);
+            let got = utils::get_line_number(off, &t) as i32;
             acc.eval();
             if got != exp {
                 acc.violation(conv_signature(&t, off, got, exp), json!({"text": trunc(&t, 400), "offset": off, "get_line_number": got, "expected_line": exp}));
